@@ -435,6 +435,8 @@ var Findings = []Finding{
 	{"expansion-into-bound-node-same-part", ExpansionClosingOnEarlierNodeOfPart},
 	{"expansion-first-hop-self-loop", ExpansionOnSelfLoopGraph},
 	{"expansion-seed-filter-not-applied-to-rows", ExpansionFromBoundNodeWithForeignPredicate},
+	{"expansion-seed-correlated-filter-new-root", ExpansionFromNewNodeWithCorrelatedPredicate},
+	{"root-step-rejoins-bound-node", ExactRangeOneHopBetweenBoundNodes},
 	{"continuation-step-rejoins-bound-node", ExactRangeIntoBoundNode},
 	{"collect-property-as-text", CollectOfNonStringProperty},
 	{"with-constants-only-loses-rows", WithOnlyConstants},
@@ -530,14 +532,14 @@ func RestatedBoundNodeOnlyPattern(q *Shape) bool {
 // (or anonymous nodes), on a graph that has a self loop. The undirected step joins both endpoints with
 // "id = start_id or id = end_id" and keeps the two apart with "left.id <> right.id"
 // (translate/traversal_directionless.go), which also removes the match of a self loop, where both ends are
-// legitimately the same node. Uses the graph: without a self loop the guard is harmless.
+// legitimately the same node. Uses the graph: without a self loop of a type the pattern admits the guard is harmless.
 func UndirectedStepOnSelfLoopGraph(q *Shape) bool {
 	if !graphHasSelfLoop(q.Case) {
 		return false
 	}
 	found := false
 	q.everyRelPattern(func(l *cypher.NodePattern, r *cypher.RelationshipPattern, rt *cypher.NodePattern) {
-		if isUndirected(r) && !IsVarLength(r) && !sameVariable(l, rt) {
+		if isUndirected(r) && !IsVarLength(r) && !sameVariable(l, rt) && relFitsSomeSelfLoop(q.Case, r) {
 			found = true
 		}
 	})
@@ -585,38 +587,80 @@ func UndirectedContinuationStep(q *Shape) bool {
 }
 
 // RelationshipsInSeveralPatternParts: one MATCH with two or more comma-separated pattern parts that each contain a
-// relationship. previousRelationshipUniquenessConstraint (translate/traversal.go) compares a step's edge only
-// with the earlier steps of its own pattern part, so one relationship can be bound in two parts.
-// Not narrower: any graph with an edge that fits both parts shows it.
+// relationship, such that a relationship pattern of one part and one of another can bind the same edge (their type
+// sets overlap; an untyped pattern fits every edge). previousRelationshipUniquenessConstraint (translate/traversal.go)
+// compares a step's edge only with the earlier steps of its own pattern part, so one relationship can be bound in
+// two parts. Not narrower: any graph with an edge that fits both patterns shows it.
 func RelationshipsInSeveralPatternParts(q *Shape) bool {
 	for _, m := range q.AllMatches() {
-		n := 0
-		for _, ps := range m.Parts {
-			if len(ps.Rels) > 0 {
-				n++
+		for i, a := range m.Parts {
+			for _, b := range m.Parts[i+1:] {
+				for _, ra := range a.Rels {
+					for _, rb := range b.Rels {
+						if relKindsOverlap(ra, rb) {
+							return true
+						}
+					}
+				}
 			}
-		}
-		if n >= 2 {
-			return true
 		}
 	}
 	return false
 }
 
-// TwoExpansionsInOnePart: a pattern part with two variable-length steps. expansionPreviousRelationshipUniquenessConstraint
+func relKindsOverlap(a, b *cypher.RelationshipPattern) bool {
+	if a == nil || b == nil {
+		return false
+	}
+	if len(a.Kinds) == 0 || len(b.Kinds) == 0 {
+		return true
+	}
+	for _, ka := range a.Kinds {
+		for _, kb := range b.Kinds {
+			if ka.String() == kb.String() {
+				return true
+			}
+		}
+	}
+	return false
+}
+
+// relFitsSomeSelfLoop reports whether the graph has a self loop whose kind the relationship pattern admits.
+func relFitsSomeSelfLoop(c Case, r *cypher.RelationshipPattern) bool {
+	for _, e := range c.Graph.Edges {
+		if e.Start != e.End {
+			continue
+		}
+		if len(r.Kinds) == 0 {
+			return true
+		}
+		for _, k := range r.Kinds {
+			if k.String() == e.Kind {
+				return true
+			}
+		}
+	}
+	return false
+}
+
+// TwoExpansionsInOnePart: a pattern part with two variable-length steps whose type sets overlap. expansionPreviousRelationshipUniquenessConstraint
 // (translate/traversal.go) compares an expansion's path with the preceding FIXED steps only and skips preceding
 // expansions, so both expansions may traverse the same relationship.
 func TwoExpansionsInOnePart(q *Shape) bool {
 	for _, m := range q.AllMatches() {
 		for _, ps := range m.Parts {
-			n := 0
+			var expansions []*cypher.RelationshipPattern
 			for _, r := range ps.Rels {
 				if IsVarLength(r) {
-					n++
+					expansions = append(expansions, r)
 				}
 			}
-			if n >= 2 {
-				return true
+			for i, a := range expansions {
+				for _, b := range expansions[i+1:] {
+					if relKindsOverlap(a, b) {
+						return true
+					}
+				}
 			}
 		}
 	}
@@ -750,11 +794,41 @@ func ExpansionOnSelfLoopGraph(q *Shape) bool {
 	}
 	found := false
 	q.everyRelPattern(func(l *cypher.NodePattern, r *cypher.RelationshipPattern, rt *cypher.NodePattern) {
-		if IsVarLength(r) {
+		if IsVarLength(r) && relFitsSomeSelfLoop(q.Case, r) {
 			found = true
 		}
 	})
 	return found
+}
+
+// expansionRootAndForeignPredicate inspects pattern parts that START with a variable-length step while earlier
+// bindings exist and whose MATCH has a WHERE reading an earlier binding other than the step's own endpoints.
+// It reports (some such part has a bound endpoint, some such part has an unbound endpoint).
+func (s *Shape) expansionRootAndForeignPredicate() (boundRoot, unboundRoot bool) {
+	s.walkParts(func(m *MatchShape, i int, ps *PatternShape, bound map[string]bool) {
+		if m.Match == nil || m.Match.Where == nil || len(ps.Rels) == 0 || !IsVarLength(ps.Rels[0]) || len(ps.Nodes) < 2 || len(bound) == 0 {
+			return
+		}
+		left, right := varName(ps.Nodes[0].Variable), varName(ps.Nodes[1].Variable)
+		foreign := false
+		Visit(m.Match.Where, func(n any) bool {
+			if v, ok := n.(*cypher.Variable); ok && v != nil && v.Symbol != left && v.Symbol != right && bound[v.Symbol] {
+				foreign = true
+			}
+			return !foreign
+		})
+		if !foreign {
+			return
+		}
+		// the optimiser may drive the expansion from either end
+		if (left != "" && bound[left]) || (right != "" && bound[right]) {
+			boundRoot = true
+		}
+		if left == "" || !bound[left] || right == "" || !bound[right] {
+			unboundRoot = true
+		}
+	})
+	return
 }
 
 // ExpansionFromBoundNodeWithForeignPredicate: a MATCH whose pattern part STARTS with a variable-length step from an
@@ -765,39 +839,24 @@ func ExpansionOnSelfLoopGraph(q *Shape) bool {
 // (translate/expansion.go buildExpansionPatternRoot).
 // Not narrower: which conjuncts land in the seed is decided by the constraint tracker.
 func ExpansionFromBoundNodeWithForeignPredicate(q *Shape) bool {
-	found := false
-	q.walkParts(func(m *MatchShape, i int, ps *PatternShape, bound map[string]bool) {
-		if found || m.Match == nil || m.Match.Where == nil || len(ps.Rels) == 0 || !IsVarLength(ps.Rels[0]) {
-			return
-		}
-		root := varName(ps.Nodes[0].Variable)
-		if len(ps.Nodes) > 1 && IsVarLength(ps.Rels[0]) {
-			// the optimiser may drive the expansion from either end
-			if other := varName(ps.Nodes[1].Variable); root == "" || !bound[root] {
-				root = other
-			}
-		}
-		if root == "" || !bound[root] {
-			return
-		}
-		Visit(m.Match.Where, func(n any) bool {
-			if v, ok := n.(*cypher.Variable); ok && v != nil && v.Symbol != root && bound[v.Symbol] {
-				found = true
-			}
-			return !found
-		})
-	})
-	return found
+	boundRoot, _ := q.expansionRootAndForeignPredicate()
+	return boundRoot
 }
 
-// ExactRangeIntoBoundNode: an exact range (*1, *1..1, *2, *2..2) whose right node restates a bound variable (bound
-// earlier, or the left node of the same step). The exact-range lowering turns the range into fixed steps; a step
-// whose endpoints are both carried by the previous frame reaches buildTraversalPatternRoot / buildTraversalPatternStep
-// (translate/traversal.go) without an expand-into decision and joins the node table on a condition that only
-// references the previous frame, multiplying every row by the number of nodes.
-func ExactRangeIntoBoundNode(q *Shape) bool {
-	found := false
-	q.walkParts(func(m *MatchShape, i int, ps *PatternShape, bound map[string]bool) {
+// ExpansionFromNewNodeWithCorrelatedPredicate: the same with a root that is NOT bound yet but correlated with the
+// previous frame by the WHERE, e.g. MATCH (a) MATCH (b)-[*]->(c) WHERE b.x = a.y. The seed is
+// "select b.id from <previous frame>, node b where <predicate>"; the projection cross-joins the previous frame with
+// the expansion again without the predicate, pairing every previous row with every root.
+func ExpansionFromNewNodeWithCorrelatedPredicate(q *Shape) bool {
+	_, unboundRoot := q.expansionRootAndForeignPredicate()
+	return unboundRoot
+}
+
+// exactRangeIntoBound calls fn for every exact-range step (*n, *n..n) whose right node restates a bound variable
+// (bound earlier, or an earlier node of the same pattern part) with the hop count, the step index and whether the
+// left node is carried as well.
+func (s *Shape) exactRangeIntoBound(fn func(hops int64, stepIndex int, leftBound bool)) {
+	s.walkParts(func(m *MatchShape, i int, ps *PatternShape, bound map[string]bool) {
 		for k, r := range ps.Rels {
 			if !IsVarLength(r) || r.Range.StartIndex == nil || r.Range.EndIndex == nil || k+1 >= len(ps.Nodes) {
 				continue
@@ -809,14 +868,43 @@ func ExactRangeIntoBoundNode(q *Shape) bool {
 			if right == "" {
 				continue
 			}
-			if bound[right] {
-				found = true
-			}
+			rightBound := bound[right]
 			for _, earlier := range ps.Nodes[:k+1] {
 				if varName(earlier.Variable) == right {
-					found = true
+					rightBound = true
 				}
 			}
+			if !rightBound {
+				continue
+			}
+			left := varName(ps.Nodes[k].Variable)
+			fn(*r.Range.StartIndex, k, k > 0 || (left != "" && bound[left]))
+		}
+	})
+}
+
+// ExactRangeIntoBoundNode: an exact range (*n, *n..n) whose right node restates a bound variable and whose LAST
+// synthesised step is a continuation step (n >= 2, or the range is not the first step of its pattern part). The
+// exact-range lowering turns the range into fixed steps; the last one has both endpoints carried by the previous
+// frame but reaches buildTraversalPatternStep (translate/traversal.go) without an expand-into decision and joins the
+// node table on a condition that only references the previous frame, multiplying every row by the number of nodes.
+func ExactRangeIntoBoundNode(q *Shape) bool {
+	found := false
+	q.exactRangeIntoBound(func(hops int64, stepIndex int, leftBound bool) {
+		if hops >= 2 || stepIndex > 0 {
+			found = true
+		}
+	})
+	return found
+}
+
+// ExactRangeOneHopBetweenBoundNodes: the same for a FIRST step between two carried nodes,
+// MATCH (a)-->(b) MATCH (b)<-[*1..1]-(a) (buildTraversalPatternRoot).
+func ExactRangeOneHopBetweenBoundNodes(q *Shape) bool {
+	found := false
+	q.exactRangeIntoBound(func(hops int64, stepIndex int, leftBound bool) {
+		if hops == 1 && stepIndex == 0 && leftBound {
+			found = true
 		}
 	})
 	return found
